@@ -126,24 +126,43 @@ def sim_contended(mach, a, odd):
     return c
 
 
-def ref_pattern(p, mach, slot, regs0, mem0, odd):
-    """documented cycles on this path as [(contended Bool term, n)] or None if the path does not decide a condition"""
-    out = []
+def ref_patterns(p, mach, slot, regs0, mem0, odd):
+    """documented cycles on this path as alternatives [(extra constraints, [(contended Bool term, n)])]: where the path
+    condition does not decide a branch of the documented cycle list (taken/not taken, I/O port class) the harness splits cases"""
+    alts = [([], [])]
     for c in z80ref.cycles(slot, regs0, mem0):
-        take = decide(p, c.cond)
-        if take is None:
-            return None
-        if not take:
-            continue
-        if c.io:
-            hi = decide(p, z80ref.contended(mach, c.addr, odd))
-            low = decide(p, z3.Extract(0, 0, c.addr) == 1)
-            if hi is None or low is None:
-                return None
-            out.extend((z3.BoolVal(k), n) for k, n in z80ref.io_cycles(hi, low))
-        else:
-            out.append((z80ref.contended(mach, c.addr, odd), c.n))
-    return out
+        new = []
+        for extra, pat in alts:
+            with p.assuming(*extra):
+                take = decide(p, c.cond)
+            for tk in ((True, False) if take is None else (take,)):
+                ex = extra + ([] if take is not None else [c.cond if tk else z3.Not(c.cond)])
+                if not tk:
+                    new.append((ex, pat))
+                    continue
+                if c.io:
+                    hic, lowc = z80ref.contended(mach, c.addr, odd), z3.Extract(0, 0, c.addr) == 1
+                    with p.assuming(*ex):
+                        hi, low = decide(p, hic), decide(p, lowc)
+                    for h in ((True, False) if hi is None else (hi,)):
+                        for lw in ((True, False) if low is None else (low,)):
+                            ex2 = ex + ([] if hi is not None else [hic if h else z3.Not(hic)]) + ([] if low is not None else [lowc if lw else z3.Not(lowc)])
+                            with p.assuming(*ex2):
+                                if p.check() != 'sat':
+                                    continue
+                            new.append((ex2, pat + [(z3.BoolVal(k), n) for k, n in z80ref.io_cycles(h, lw)]))
+                else:
+                    new.append((ex, pat + [(z80ref.contended(mach, c.addr, odd), c.n)]))
+        alts = new
+    return alts
+
+
+def ref_pattern(p, mach, slot, regs0, mem0, odd):
+    """the single documented pattern if the path decides every condition, else None"""
+    alts = ref_patterns(p, mach, slot, regs0, mem0, odd)
+    if len(alts) == 1 and not alts[0][0]:
+        return alts[0][1]
+    return None
 
 
 def ref_fold(mach, tm, pattern):
@@ -225,7 +244,7 @@ def check_pattern(item):
             diffs.append(pc_[25] != pp_[25] + total); names.append('T != plain T + contention delay')
             ref = ref_pattern(p, mach, slot, mc.regs0, mc.mem0, odd)
             if ref is None:
-                diffs.append(z3.BoolVal(True)); names.append('pattern depends on a condition the closure did not test')
+                diffs.append(z3.BoolVal(True)); names.append('documented pattern depends on a condition the closure did not test')
             elif len(ref) != len(pattern) or any(n != rn for (a, n), (rc, rn) in zip(pattern, ref)):
                 diffs.append(z3.BoolVal(True))
                 names.append('cycle lengths %s, documented %s' % ([n for a, n in pattern], [n for c, n in ref]))
@@ -254,9 +273,21 @@ def check_pattern(item):
         if r == 'unknown':
             res['inconclusive'].append(name); return
         if r == 'sat':
-            # the structural/sufficient timing obligations do not hold here: decide with the real contend, end to end
-            state['fallback'] = True
-            return
+            # The structural (sufficient) timing obligations do not hold on this path.  Decide by the fold lemma: the real
+            # contend() equals the reference fold (fold part), so the closure's delay is the fold of the pattern it passed
+            # (0 if it skipped contend); compare that with the fold of the documented cycles for every state on this path.
+            pat_sim = [(sim_contended(mach, a, odd), n) for t_, seg in cap for a, n in seg]
+            d_sim = ref_fold(mach, tm0, pat_sim) if cap else 0
+            for extra, ref2 in ref_patterns(p, mach, slot, mc.regs0, mc.mem0, odd):
+                d_ref = ref_fold(mach, tm0, ref2)
+                with p.assuming(*extra):
+                    r2, mod2 = p.check(bv(d_sim) != bv(d_ref), model=True)
+                if r2 == 'unknown':
+                    res['inconclusive'].append(name + ': fold comparison'); return
+                if r2 == 'sat':
+                    res['violations'].append(dict(key='%s:delay' % name, text='%s: contention delay differs from the documented cycles (%s)' % (name, '; '.join(which_)[:160]), case=case(mod2)))
+                    return
+            state['equivalent_patterns'] = state.get('equivalent_patterns', 0) + 1
         fo = p.failed_obligations()
         if fo:
             res['violations'].append(dict(key='%s:%s' % (name, fo[0][0]), text='%s: %s can fail' % (name, fo[0][0]), case=case(fo[0][2])))
@@ -271,13 +302,8 @@ def check_pattern(item):
     except Inconclusive as e:
         res['inconclusive'].append('%s: %s' % (name, e))
     finish(res, st)
-    if state['fallback']:
-        r2 = check_semantic(('semantic', mach, tracer, table, op))
-        for k in ('obligations', 'discharged', 'nontrivial', 'paths', 'queries', 'solver_s'):
-            res[k] = res.get(k, 0) + r2.get(k, 0)
-        res['violations'] += r2['violations']
-        res['inconclusive'] += r2['inconclusive']
-        res['extra'] = {'slots_decided_by_semantic_fallback': 1}
+    if state.get('equivalent_patterns'):
+        res['extra'] = {'paths_with_structurally_different_but_delay_equivalent_patterns': state['equivalent_patterns']}
     return res
 
 
@@ -373,18 +399,21 @@ def check_io(item):
         port, pattern = out
         odd = (mc.mem.o7ffd.e & 1) == 1 if mach == '128K' else None
         p16 = z3.Extract(15, 0, port.e)
-        hi = decide(p, z80ref.contended(mach, p16, odd))
-        low = decide(p, z3.Extract(0, 0, p16) == 1)
-        ok = hi is not None and low is not None
-        if ok:
-            ref = z80ref.io_cycles(hi, low)
-            got = []
-            for a, n in pattern:
-                c = decide(p, sim_contended(mach, a, odd))
-                got.append((c, n))
-            ok = got == ref
+        hic, lowc = z80ref.contended(mach, p16, odd), z3.Extract(0, 0, p16) == 1
+        ok, mod = True, None
+        for h in (True, False):
+            for lw in (True, False):
+                extra = [hic if h else z3.Not(hic), lowc if lw else z3.Not(lowc)]
+                with p.assuming(*extra):
+                    r, m_ = p.check(model=True)
+                    if r != 'sat':
+                        continue
+                    ref = z80ref.io_cycles(h, lw)
+                    got = [(decide(p, sim_contended(mach, a, odd)), n) for a, n in pattern]
+                    if got != ref:
+                        ok, mod = False, m_
         if not ok:
-            r, mod = p.check(model=True)
+            r = 'sat'
             pv = mod.eval(port.e, model_completion=True).as_long()
             o7 = mod.eval(mc.mem.o7ffd.e, model_completion=True).as_long() if mach == '128K' else 0
             res['violations'].append(dict(key=name, text='%s(%d) with o7ffd=%d is not the documented I/O pattern' % (name, pv, o7),
@@ -445,12 +474,14 @@ def check_semantic(item):
             return
         odd = (mc.mem.o7ffd.e & 1) == 1 if mach == '128K' else None
         tm0 = SymInt(mc.regs0[25], 0, sh.REG_RANGES[25]) % M['frame']
-        ref = ref_pattern(p, mach, slot, mc.regs0, mc.mem0, odd)
-        if ref is None:
-            res['inconclusive'].append(name + ': path does not decide a cycle condition'); return
-        d = ref_fold(mach, tm0, ref)
-        bad = mc.post_regs()[25] != mp.post_regs()[25] + bv(d)
-        r, mod = p.check(bad, model=True)
+        r, mod = 'unsat', None
+        for extra, ref in ref_patterns(p, mach, slot, mc.regs0, mc.mem0, odd):
+            d = ref_fold(mach, tm0, ref)
+            bad = mc.post_regs()[25] != mp.post_regs()[25] + bv(d)
+            with p.assuming(*extra):
+                r, mod = p.check(bad, model=True)
+            if r != 'unsat':
+                break
         if r == 'unknown':
             res['inconclusive'].append(name); return
         if r == 'sat':
